@@ -9,8 +9,8 @@ import numpy as np
 from hypothesis import strategies as st
 
 from vlib import env, gen, indep  # noqa: F401
-from vlib.build import lib, spec_records
-from vlib.report import HarnessError, PropertyViolation
+from vlib.build import lib, spec_records, step_cap
+from vlib.report import Discard, HarnessError, PropertyViolation
 from vlib.runner import Sub
 
 import gaddlemaps
@@ -349,7 +349,8 @@ def library_workflow(system, species, scale, out, seed):
     man = Manager.from_files(system, *[s[0] for s in species])
     for name, mol in ends.items():
         man.molecule_correspondence[name].end = mol
-    man.align_molecules()
+    with step_cap():
+        man.align_molecules()
     man.calculate_exchange_maps(scale_factor=scale)
     man.extrapolate_system(out)
 
@@ -361,7 +362,7 @@ def run_main(argv, seed, cwd=None):
         if cwd:
             os.chdir(cwd)
         np.random.seed(seed)
-        with env.quiet():
+        with env.quiet(), step_cap():
             _cli.main()
     finally:
         sys.argv = old_argv
@@ -424,7 +425,7 @@ def check_cli(case):
         try:
             run_main(argv, seed, cwd)
         except BaseException as exc:      # noqa: BLE001
-            if isinstance(exc, (KeyboardInterrupt, MemoryError)):
+            if isinstance(exc, (KeyboardInterrupt, MemoryError, Discard)):
                 raise
             if not recorded or not recorded[0]:
                 if not explicit and (not auto or all(nm in exclude for nm in complete)):
